@@ -11,6 +11,7 @@ import (
 	"path/filepath"
 	"strings"
 	"sync"
+	"syscall"
 	"sync/atomic"
 	"time"
 
@@ -41,7 +42,7 @@ func main() {
 		MinNonTrivial:       20,
 		RaceIsViolation:     true,
 		DeadlockIsViolation: true,
-		CaseTimeout:         60 * time.Second,
+		CaseTimeout:         150 * time.Second,
 	})
 }
 
@@ -57,7 +58,11 @@ func parentSetup(tier string, seed int64, work string) ([]string, error) {
 	if err != nil {
 		return nil, err
 	}
-	return []string{"VERIF_CLI=" + p}, nil
+	sh, err := harness.BuildHelper(work, "shim", "./helpers/shim", "verif")
+	if err != nil {
+		return nil, err
+	}
+	return []string{"VERIF_CLI=" + p, "VERIF_SHIM=" + sh}, nil
 }
 
 var sizeChoices = []dsu.Sizes{{64, 128, 256}, {64, 128, 256}, {1024, 2048, 4096}, {1024, 2048, 4096}, {2048, 6144, 12288}, {2048, 6144, 12288}, {512, 3000, 9000}, {16384, 65536, 262144}}
@@ -304,6 +309,7 @@ func run(c *harness.Ctx, i int) {
 	// were validated. Then success is not demanded any more - but a reported success still means output == blob.
 	hostile := ""
 	var midRun func()
+	midRunAtFeeder := false
 	cancelAtJob := int64(0)
 	if !useCLI && rng.Intn(4) == 0 {
 		switch rng.Intn(5) {
@@ -371,7 +377,28 @@ func run(c *harness.Ctx, i int) {
 				}
 			}
 			at, l := rng.Intn(len(blob)+1), int(sz.Max)*(2+rng.Intn(4))
-			if len(files) > 0 {
+			if len(files) > 0 && rng.Intn(3) == 0 {
+				// ... or every seed file is cut short (to nothing, to a chunk boundary of the blob, anywhere): a copy from
+				// it then delivers fewer bytes than planned, possibly none at all
+				cut := int64(0)
+				switch rng.Intn(3) {
+				case 1:
+					if len(idx.Chunks) > 0 {
+						cut = int64(idx.Chunks[rng.Intn(len(idx.Chunks))].Start)
+					}
+				case 2:
+					cut = int64(rng.Intn(len(blob) + 1))
+				}
+				hostile += "+seed-cut-short"
+				midRunAtFeeder = rng.Intn(2) == 0
+				midRun = func() {
+					for _, f := range files {
+						if st, err := os.Stat(f); err == nil && st.Size() > cut {
+							os.Truncate(f, cut)
+						}
+					}
+				}
+			} else if len(files) > 0 {
 				hostile += "+seed-overwritten"
 				midRun = func() {
 					for _, f := range files {
@@ -446,7 +473,7 @@ func run(c *harness.Ctx, i int) {
 		var once sync.Once
 		fireAt := int64(1 + rng.Intn(3))
 		y.OnHit = func(point string, hn int64) {
-			if point == "assemble.worker.job" && hn >= fireAt {
+			if (point == "assemble.worker.job" && hn >= fireAt) || (midRunAtFeeder && point == "assemble.feeder") {
 				once.Do(midRun)
 			}
 		}
@@ -506,6 +533,27 @@ func runCLI(c *harness.Ctx, dir, target string, blob []byte, idx desync.Index, s
 	idxFile := filepath.Join(dir, "target.caibx")
 	dsu.Must(dsu.WriteIndex(idxFile, idx))
 	args := []string{"extract", "-s", storeDir, "-n", fmt.Sprint(n), "--print-stats"}
+	// several stores: in front of the complete one an ssh:// store (casync protocol, `desync pull` behind the stand-in
+	// for ssh) that holds only some of the chunks - asking it for what it lacks and moving on is a router's daily work
+	multi := os.Getenv("VERIF_SHIM") != "" && c.Rng.Intn(3) == 0
+	if multi {
+		part := filepath.Join(dir, "partial-store")
+		os.MkdirAll(part, 0755)
+		keepEvery := 2 + c.Rng.Intn(3)
+		k := 0
+		filepath.Walk(storeDir, func(p string, info os.FileInfo, err error) error {
+			if err == nil && !info.IsDir() {
+				if k++; k%keepEvery == 0 {
+					rel, _ := filepath.Rel(storeDir, p)
+					b, _ := os.ReadFile(p)
+					dsu.WriteFile(filepath.Join(part, rel), b)
+				}
+			}
+			return nil
+		})
+		args = []string{"extract", "-s", "ssh://localhost" + part, "-s", storeDir, "-n", fmt.Sprint(n), "--print-stats"}
+		sigKinds += "|ssh+local"
+	}
 	// seeds are named one by one, or found in a seed directory (every X.caibx with an X next to it) - which is also
 	// where the index to extract and its output live, spelled differently from the directory (relative / absolute /
 	// with a detour): that one pair is not a seed, whatever the output path holds
@@ -569,10 +617,30 @@ func runCLI(c *harness.Ctx, dir, target string, blob []byte, idx desync.Index, s
 	if runDir != "" && !filepath.IsAbs(target) {
 		target = filepath.Join(runDir, target)
 	}
+	if multi {
+		cmd.Env = append(cmd.Env, "CASYNC_SSH_PATH="+os.Getenv("VERIF_SHIM"), "CASYNC_REMOTE_PATH="+cli)
+	}
 	var stdout, stderr bytes.Buffer
 	cmd.Stdout = &stdout
 	cmd.Stderr = &stderr
-	err := cmd.Run()
+	err := cmd.Start()
+	if err == nil {
+		done := make(chan error, 1)
+		go func() { done <- cmd.Wait() }()
+		select {
+		case err = <-done:
+		case <-time.After(60 * time.Second):
+			// a command that takes a fraction of a second has not returned: look at what its goroutines are doing
+			cmd.Process.Signal(syscall.SIGQUIT)
+			err = <-done
+			if harness.DumpIsStuckWaitingForChildren(stderr.String()) {
+				c.Violation("hang:cli", "desync %v did not return; its goroutine dump shows every goroutine waiting for a channel, a lock or its own idle helper processes:\n%s", args, stderr.String())
+			} else {
+				c.Inconclusive("desync %v did not return within 60 s, goroutine dump not conclusive:\n%s", args, stderr.String())
+			}
+			return
+		}
+	}
 	c.Count("cli_cases", 1)
 	if err != nil {
 		if strings.Contains(stderr.String(), "panic:") || strings.Contains(stderr.String(), "fatal error:") {
